@@ -4,7 +4,7 @@ from . import tok_common, nf_common
 
 MANIFEST = {
     "text": "The chunk-independence and option-independence rules of C03/C08 applied to xml5ever's tokenizer tables (50 states x exact char partition): fast-path sets contain every character the preprocessing rewrites, BOM flag cleared at stream start, only raw text is pushed back by the char-ref code, eat() resolves a pending CR, no effect before suspension, temp_buf empty at eat(); all tables equal the reviewed reference.",
-    "note": "Decides R15.1-R15.6 (necessary conditions). Not decided: BufferQueue arithmetic, tree builder reaction. The XML reference table is a reviewed snapshot of the code (xml5 has no normative algorithm to compare with). Round 6: runs only appended + finish_attribute buffers (R15.8), driver feeds until done (R15.9).",
+    "note": "Decides R15.1-R15.6 (necessary conditions). Not decided: BufferQueue arithmetic, tree builder reaction. The XML reference table is a reviewed snapshot of the code (xml5 has no normative algorithm to compare with). Round 6: runs only appended + finish_attribute buffers (R15.8), driver feeds until done (R15.9). Round 8: end() runs before eof_step (R15.10), input stream preprocessing transcription incl. U+0000 -> U+FFFD for the character behind a skipped LF (R15.11), feed facts (R15.12), no attribute value without a name (F30, R15.13).",
     "technique": "rules over decision-tree-flattened transition tables + reviewed normal-form comparison",
 }
 LEVEL = "other"
